@@ -547,3 +547,31 @@ Qed.
 
 Lemma unrecorded_is_factor_one : C01_unrecorded_is_factor_one_stmt.
 Proof. intros b m s. reflexivity. Qed.
+
+(** * Example objects for the non-vacuity checks of properties/C01.v and C02.v *)
+(** trinary graph T -> II, T -> III, III -> II (the LNL arc runs against the listing
+    order II, III) with growth arcs; a clinical and a pathological modality; a frozen
+    and a binomial time distribution; max_time = 2 *)
+Definition C01_ex_graph : graph :=
+  set_edges (force_graph (build_graph 3
+      [(("tumor", "T"), CList ["II"; "III"]); (("lnl", "II"), CList []); (("lnl", "III"), CList ["II"])]%string))
+    [("TtoII", (qc 1 2, 1)); ("TtoIII", (qc 1 4, 1)); ("IIItoII", (qc 1 3, qc 1 2));
+     ("II", (qc 1 5, 1)); ("III", (qc 2 5, 1))]%string.
+Definition C01_ex_uni : uni :=
+  {| u_graph := C01_ex_graph;
+     u_mods := [("CT", {| m_spec := qc 4 5; m_sens := qc 3 4; m_path := false |});
+                ("path", {| m_spec := qc 9 10; m_sens := qc 7 10; m_path := true |})]%string;
+     u_dists := [("early", Frozen [qc 1 2; qc 1 4; qc 1 4]); ("late", Param 0 [("p", qc 1 3)])]%string;
+     u_maxt := 2 |}.
+(** four patients: complete CT + partial pathology (early); one CT finding only, no
+    pathology column (late); no findings at all (early); a T-stage without distribution *)
+Definition C01_ex_p1 : patient :=
+  {| p_tstage := "early";
+     p_find := [("CT", [("II", Some IInvolved); ("III", Some IHealthy)]);
+                ("path", [("II", None); ("III", Some IInvolved)])] |}%string.
+Definition C01_ex_p2 : patient :=
+  {| p_tstage := "late"; p_find := [("CT", [("II", Some IHealthy)])] |}%string.
+Definition C01_ex_data : list patient :=
+  [ C01_ex_p1; C01_ex_p2;
+    {| p_tstage := "early"; p_find := [] |};
+    {| p_tstage := "unstaged"; p_find := [("path", [("III", Some IHealthy)])] |} ]%string.
